@@ -5,9 +5,9 @@
 (* (pop every open scope, then the testrun cleanups as run_model does).    *)
 (* Every operation is applied to the implementation model (Context!Apply)  *)
 (* and its predicted observation is fed to the property monitor            *)
-(* (Context!MonStep); the INVARIANTs say that no clause fires, except for  *)
-(* the narrowly defined known findings KF_C13_n.  Every closed history is  *)
-(* printed with the predicted observation after every operation.           *)
+(* (Context!MonStep); the INVARIANTs say that no clause fires.  Every     *)
+(* closed history is printed with the predicted observation after every   *)
+(* operation.                                                              *)
 EXTENDS Context, TLC, Json
 CONSTANTS OpsAt,       \* OpsAt[d] = number of operations after the prelude of depth d (0: depth not used);
                        \* prelude depths: 1 testrun, 2 +feature, 3 +feature+scenario, 4 +feature+rule+scenario
@@ -20,25 +20,24 @@ CONSTANTS OpsAt,       \* OpsAt[d] = number of operations after the prelude of d
           WithFixtures,
           WithAttrs    \* set/del at all
 
-VARIABLES ph, todo, s, m, ops, obs, lastv, kf, kfh, n, maxn, rzOf
-vars == <<ph, todo, s, m, ops, obs, lastv, kf, kfh, n, maxn, rzOf>>
+VARIABLES ph, todo, s, m, ops, obs, lastv, n, maxn, rzOf
+vars == <<ph, todo, s, m, ops, obs, lastv, n, maxn, rzOf>>
 
 PreChain == << <<>>, <<2>>, <<2, 4>>, <<2, 3, 4>> >>
 Init == /\ ph = "start" /\ todo = <<>> /\ s = SInit /\ m = MInit /\ ops = <<>> /\ obs = <<>>
-        /\ lastv = {} /\ kf = {} /\ kfh = {} /\ n = 0 /\ maxn = 0 /\ rzOf = <<0, 0, 0>>
+        /\ lastv = {} /\ n = 0 /\ maxn = 0 /\ rzOf = <<0, 0, 0>>
 
 Do(op) == LET seq == Len(ops) + 1
               r == Apply(s, op, seq)
               mv == MonStep(m, op, r.ob, seq)
-              k == KFs(s, m, op, r.ob)
           IN /\ s' = r.s /\ m' = mv.m /\ ops' = Append(ops, op) /\ obs' = Append(obs, r.ob)
-             /\ lastv' = mv.v /\ kf' = k /\ kfh' = kfh \cup k
+             /\ lastv' = mv.v
 
 Start == /\ ph = "start"
          /\ \E d \in {x \in 1..4 : OpsAt[x] > 0} : /\ todo' = PreChain[d]
                                                      /\ maxn' = OpsAt[d]
                                                      /\ ph' = IF d = 1 THEN "run" ELSE "pre"
-         /\ UNCHANGED <<s, m, ops, obs, lastv, kf, kfh, n, rzOf>>
+         /\ UNCHANGED <<s, m, ops, obs, lastv, n, rzOf>>
 Prelude == /\ ph = "pre"
            /\ Do(OpPush(Head(todo)))
            /\ todo' = Tail(todo)
@@ -93,21 +92,20 @@ Spec == Init /\ [][Next]_vars
 
 \* ---------------------------------------------------------------- the clauses at design level
 Fired(c) == {x \in lastv : x[1] = c}
-Clean(c) == \A x \in Fired(c) : KFOf(x) \in kf           \* only the named known findings may fire
+Clean(c) == Fired(c) = {}
 Visible == Clean("visible")
 Shadow == Clean("shadow")
 DeleteLocal == Clean("delete_local")
 ScopeEnd == Clean("scope_end")
 RootAttr == Clean("root_attr")
-CleanupOnce == Clean("cleanup_once")               \* exception: KF_C13_3
+CleanupOnce == Clean("cleanup_once")
 CleanupLifo == Clean("cleanup_lifo")
 CleanupDespiteErrors == Clean("cleanup_despite_errors")
 CleanupLayer == Clean("cleanup_layer")
 FixtureCleanup == Clean("fixture_cleanup")
-ExecStepsRestore == Clean("exec_steps_restore")    \* exception: KF_C13_2
-ApiErrors == Clean("api_errors")                   \* exception: KF_C13_1
-\* the implementation model itself: scopes nest, the reference stack has the same shape, the known findings are
-\* the ONLY differences between model and reference (what the reference still claims to know agrees with the model)
+ExecStepsRestore == Clean("exec_steps_restore")
+ApiErrors == Clean("api_errors")
+\* the implementation model itself: scopes nest, the reference stack has the same shape and the same view
 Shape == /\ Len(s.frames) = Len(m) /\ Len(s.frames) >= 1
          /\ \A k \in DOMAIN m : m[k].layer = s.frames[k].layer
 ViewsAgree == \A i \in 1..NP : MLk(m, i) \in {Unknown, Lk(s.frames, i)}
@@ -121,5 +119,5 @@ Ops0040 == <<0, 0, 4, 0>>
 Ops5000 == <<5, 0, 0, 0>>
 Ops6000 == <<6, 0, 0, 0>>
 OpsSim == <<50, 50, 50, 50>>
-Emit == ph = "done" => PrintT(<<"CASE", ToJson([ops |-> ops, obs |-> obs, kf |-> kfh])>>)
+Emit == ph = "done" => PrintT(<<"CASE", ToJson([ops |-> ops, obs |-> obs])>>)
 =============================================================================
